@@ -52,6 +52,20 @@ json_t *json_deep_copy(const json_t *value)
 	if (k < 2) { g_dc_src[k] = value; g_dc_res[k] = c; }
 	return c;
 }
+/* json_copy is SHALLOW: the copy shares every member value with its source.  It is modelled so that a generate() that
+ * uses it instead of json_deep_copy is JUDGED (the C10 clause "two deep copies, of the builder's headers and claims" fails)
+ * rather than left without a verdict for calling an unmodelled function. */
+json_t *json_copy(json_t *value)
+{
+	json_t *c = NULL;
+	if (value != NULL && !nondet_bool()) {
+		c = mk_node(value->type);
+		c->tracked = value->tracked;
+	} else if (value != NULL) {
+		g_oom = 1;
+	}
+	return c;
+}
 void json_delete(json_t *json) { (void)json; }
 
 static void set_error(jwt_t *jwt)
